@@ -97,7 +97,27 @@ func c08CrossScripts(which int) []func(g *c08Gen) rawReq {
 			return q
 		}
 	}
-	switch which % 3 {
+	// the OwnerSign bytes of session k, literally, sent again: under no token, under the finished session's token, and
+	// under the token of a new TO0 session (whose nonce they do not carry)
+	replay22 := func(k int, tok func(g *c08Gen) string) func(*c08Gen) rawReq {
+		return func(g *c08Gen) rawReq {
+			q := g.base(k, 22)
+			q.Dev, q.NonceOf, q.Signer, q.Variant = 1, k, 1, fmt.Sprintf("replay22:%d", k)
+			if rec, ok := g.rw.recorded22[k]; ok {
+				q.Dev, q.NonceOf, q.Signer = rec.Dev, rec.NonceOf, rec.Signer
+			}
+			q.Tok = tok(g)
+			return q
+		}
+	}
+	switch which % 4 {
+	case 3:
+		return []func(g *c08Gen) rawReq{start(20, 0), under(22, 1),
+			replay22(0, func(*c08Gen) string { return "n" }),
+			replay22(0, func(*c08Gen) string { return "s0" }),
+			start(20, 0),
+			replay22(0, func(g *c08Gen) string { return fmt.Sprintf("s%d", last(g)) }),
+			start(20, 0), under(22, 1)}
 	case 0:
 		return []func(g *c08Gen) rawReq{start(20, 0), under(22, 1), start(30, 1), under(22, 2)}
 	case 1:
@@ -403,6 +423,12 @@ func c08Sequence(x *runCtx, r *rand.Rand, backend string, k lab.Kind, reuse bool
 			if _, ok := rw.recorded[q.NonceOf]; ok && q.NonceOf != sessIdx(q.Tok) {
 				q.Variant = "replay" // literally the bytes recorded in that session
 				q.Signer, q.Dev = g.ss[q.NonceOf].dev, g.ss[q.NonceOf].dev
+			}
+		}
+		if q.Typ == 22 && q.Variant == "" && q.Wf && q.NonceOf >= 0 && q.NonceOf != sessIdx(q.Tok) && q.NonceOf < len(g.ss) {
+			if rec, ok := rw.recorded22[q.NonceOf]; ok {
+				q.Variant = fmt.Sprintf("replay22:%d", q.NonceOf) // literally the OwnerSign bytes sent in that session
+				q.Dev, q.NonceOf, q.Signer = rec.Dev, rec.NonceOf, rec.Signer
 			}
 		}
 		// what the harness knows before sending
